@@ -65,6 +65,31 @@ func splitmix64(x uint64) uint64 {
 
 func mix(a, b uint64) uint64 { return splitmix64(splitmix64(a) ^ (b * 0x9e3779b97f4a7c15)) }
 
+// permIndex is a seeded pseudo-random *bijection* of [0, n): a 4-round Feistel network on
+// the next even number of bits with cycle walking. Sampling k = 0, 1, 2, … through it gives
+// distinct points (no hash set needed) in an order without the arithmetic regularities of an
+// affine map — consecutive samples are unrelated, which matters when one object is reused
+// for consecutive points.
+func permIndex(k, n, key uint64) uint64 {
+	bits := uint(2)
+	for (uint64(1) << bits) < n {
+		bits += 2
+	}
+	half := bits / 2
+	mask := (uint64(1) << half) - 1
+	x := k
+	for {
+		l, r := x>>half, x&mask
+		for round := uint64(0); round < 4; round++ {
+			l, r = r, l^(splitmix64(r^(key+round*0x9e3779b97f4a7c15))&mask)
+		}
+		x = l<<half | r
+		if x < n {
+			return x
+		}
+	}
+}
+
 // rapidSeed derives the non-zero rapid seed of this shard and stage.
 func rapidSeed(stage string) uint64 {
 	s := mix(mix(uint64(seed), uint64(shard)), ev.Hash(stage))
